@@ -132,6 +132,16 @@ def build_model(model, val):
               domains=model.get("domains", {}))
     if model.get("vparam"):
         b.vparam_names = list(model["vparam"])
+    if model.get("share"):
+        # equal sub-recipes denote ONE expression object (e = w @ x; lo <= e; e <= hi), as a user would write them
+        orig, memo = b.S, {}
+
+        def shared(r):
+            k = repr(r)
+            if k not in memo:
+                memo[k] = orig(r)
+            return memo[k]
+        b.S = shared
     rs = [model["obj"]] + [c[1] for c in model["cons"]] + [c[2] for c in model["cons"]]
     for r in rs:
         for d in declare(r):
@@ -299,6 +309,16 @@ def lp_models(tier="quick"):
         out.append(dict(tag=f"view:strided-obj/strided-cons:{sense}", obj=("vsum", ev), sense=sense,
                         cons=[("le", ("vsum", ends), ("num", S("r0")))], bounds=ub))
         out.append(dict(tag=f"view:strided-obj-only:{sense}", obj=("bin", "+", ("vsum", ev), ("lincomb", [2.0, S("k0")], ev)), sense=sense, cons=[], bounds=ub))
+    # ONE expression object used in several constraints (a range lo <= e <= hi), plain float64 coefficient arrays
+    w64 = [0.5, -1.25, 3.0]
+    for tag, e in (("f64@v", ("lincomb", w64, V3)), ("v@f64", ("lincomb", w64, V3, "right")), ("f64@v-c0", ("bin", "-", ("lincomb", w64, V3), ("const", S("c0")))),
+                   ("sum(v)", ("vsum", V3)), ("f64@v[::-1]", ("lincomb", w64, ("slice", V3, None, None, -1))), ("2*x+z", ("bin", "+", ("bin", "*", ("num", 2.0), X), Z))):
+        for sense in ("min", "max"):
+            out.append(dict(tag=f"range:{tag}:{sense}", share=True, obj=("vsum", V3) if "v" in tag else simple_obj, sense=sense,
+                            cons=[("ge", e, ("num", S("r0"))), ("le", e, ("num", S("r1")))], bounds=std_bounds))
+            out.append(dict(tag=f"range-rev:{tag}:{sense}", share=True, obj=e, sense=sense,
+                            cons=[("le", e, ("num", S("r1"))), ("ge", e, ("num", S("r0"))), ("eq", e, ("num", S("r2")))], bounds=std_bounds))
+        out.append(dict(tag=f"ge-only:{tag}", obj=("vsum", V3) if "v" in tag else simple_obj, sense="min", cons=[("ge", e, ("num", S("r0")))], bounds=std_bounds))
     if tier == "thorough":
         for (t1, f1) in forms:
             for (t2, f2) in forms[::3]:
@@ -368,6 +388,13 @@ def solve_models(tier="quick"):
     # the constant written first (reflected subtraction) over a vector that covers all variables
     add("lp-const-minus-sum", ("bin", "-", ("num", S("c0")), ("vsum", v2)), "min", [("ge", ("bin", "-", ("num", S("r0")), ("lincomb", [S("k0"), 1.0], v2)), ("num", 0.0))], bx)
     add("lp-const-minus-lincomb-max", ("bin", "-", ("const", S("c0")), ("lincomb", [S("k0"), S("k1")], v2)), "max", [("le", ("vsum", v2), ("num", S("r0")))], bx)
+    # constraints that are affine but written with quotients / products of CONSTANT sub-expressions (constant terms in
+    # the numerator): whichever route they are sent to, the relation must be the one written
+    cden = ("bin", "*", ("const", 2.0), ("const", S("c1")))
+    add("lp-quot-constexpr", lin, "max", [("le", ("bin", "/", ("bin", "+", X, ("num", S("c0"))), cden), ("num", S("r0"))),
+                                          ("le", ("bin", "+", Y, ("bin", "/", ("num", 4.0), cden)), ("num", S("r1")))], bx)
+    add("lp-quot-constexpr-ge", ("bin", "+", X, Y), "min", [("ge", ("bin", "/", ("bin", "+", ("bin", "*", ("num", 2.0), X), ("num", 3.0)), ("bin", "+", ("const", 1.0), ("const", S("c1")))), ("num", S("r0"))),
+                                                             ("ge", Y, ("num", S("r1")))], nb)
     add("lp-mixed", ("bin", "+", ("vsum", v2), X), "min", [("ge", ("bin", "+", ("velem", v2, 1), X), ("num", S("r0")))], bx)
     if tier == "thorough":
         v3 = ("vec", "v", 3)
